@@ -614,6 +614,8 @@ class Selection:
         self.site = None
         self.header = None
         self.problems = []
+        self.context = []         # find form: the guards of the function path before the action
+        self.contexts = []        # ... of every function path that reaches this action with this chosen element
 
     def pred_over_chosen(self):
         return [(mir.subst(a, {self.elem: self.chosen}) if isinstance(a, tuple) else a, v) for a, v in self.pred]
@@ -674,7 +676,7 @@ def selections(ctx, body, action, arg_index):
             if any(x.form == "find" and x.chosen == arg for x in out):
                 for x in out:
                     if x.form == "find" and x.chosen == arg:
-                        x.acts += 0
+                        x.contexts.append([(g.a, g.b) for g in p.events[:p.events.index(e)] if g.kind == "guard"])
                 continue
             sc = tables.closure_scan(ctx.body, c)
             s = Selection()
@@ -693,5 +695,7 @@ def selections(ctx, body, action, arg_index):
             s.leaves_scan = True
             s.skips_quietly = True
             s.acts = 1
+            s.context = [(g.a, g.b) for g in p.events[:p.events.index(e)] if g.kind == "guard"]
+            s.contexts = [s.context]
             out.append(s)
     return out
